@@ -483,4 +483,17 @@ func init() {
 		},
 		Outside: []string{"status details and trailer metadata set by the backend", "response headers set by the backend (clientStream.Header is not forwarded by larking at all: by reading, not checked)", "calls over the HTTP-transcoding, gRPC-web and WebSocket front ends to a proxied backend", "more than 2 messages per direction, flow control, deadlines and cancellation propagation to the backend", "schedules beyond the context bound", "a client that neither sends a message nor ends its stream"},
 	})
+
+	addProp(&PropSpec{
+		ID: "C20",
+		Harnesses: []HarnessSpec{
+			{Name: "VerifH_server_prefix", Covers: []string{"default-mount", "two-prefixes", "transcoding", "error", "twirp-error", "grpc", "grpc-web", "unrouted", "outside-prefix"}},
+		},
+		Bounds: map[string]string{
+			"quick":    "NewServer (real; net/http.ServeMux pattern registration and routing, http.StripPrefix, the h2c wrapper and http2.ConfigureServer interpreted from source) with 4 mount configurations (default, MuxHandleOption(/api/), MuxHandleOption(/api, /v2/x/), MuxHandleOption(/)) plus HTTPHandlerOption(/static/); one request per entry kind - transcoding with a symbolic 1..2 byte path segment, failing handler (google.rpc.Status and Twirp error rendering), unary gRPC (ProtoMajor 2), unary gRPC-web, an unrouted path - sent as prefix+path to the server's handler and as path to an identically built bare mux: status, every response header, body, handler invocations and captured path variables must be equal; the same request under /other is answered 404 without reaching the mux; GET /static/file reaches the extra handler",
+			"thorough": "as quick",
+		},
+		Assume: append([]string{"the request enters at http.Server.Handler.ServeHTTP with the request object net/http would build (the HTTP/1.1 and HTTP/2 wire layers, TLS and h2c upgrade are not exercised)", "runtime.Caller answers 'unknown' (ServeMux uses it only to word registration conflicts)"}, driverAssume...),
+		Outside: []string{"unclean paths ('.', '..', '//' segments): net/http.ServeMux answers them with a 301 before any handler runs, so NewServer is not transparent for them under ANY pattern including the default - unspecified, not asserted", "the request to exactly the prefix without trailing slash (ServeMux redirects it)", "host-specific and method-specific ServeMux patterns", "streaming calls, WebSocket upgrade through the mounted server", "the HTTP/2 and TLS layers"},
+	})
 }
